@@ -150,6 +150,10 @@ type c14Obs struct {
 	deleted  map[string]bool
 	preLive  map[string]*wTopicSnap
 	preNames map[int][]string
+	// racingSub: P2P topics for which a {sub} was in flight in the same batch as an account deletion
+	racingSub   map[string]bool
+	servedKnown map[string]bool
+	known       func(*kit.Viol) bool
 }
 
 func (o *c14Obs) Before(w *wWorld, op *wOp) {
@@ -200,6 +204,17 @@ func (o *c14Obs) After(w *wWorld, st *wStep) *kit.Viol {
 			}
 		}
 	}
+	if st.Op.K == "par" {
+		delUser := false
+		for _, s := range steps {
+			delUser = delUser || (s.Op.K == "del" && s.Op.A == "user")
+		}
+		for _, s := range steps {
+			if delUser && s.Op.K == "sub" && strings.HasPrefix(s.Route, "p2p") {
+				o.racingSub[s.Route] = true
+			}
+		}
+	}
 	discInBatch := map[int]bool{}
 	for _, s := range steps {
 		if s.Op.K == "disc" {
@@ -217,6 +232,11 @@ func (o *c14Obs) After(w *wWorld, st *wStep) *kit.Viol {
 		answered := false
 		for _, f := range st.Frames[s.Sess] {
 			if f.Ctrl != nil && f.Ctrl.Id == s.ReqID {
+				answered = true
+			}
+			if f.Ctrl != nil && f.Ctrl.Id == "" && f.Ctrl.Code >= 400 && s.Op.Obo > 0 {
+				// a request on behalf of another user from a session which is not (or no longer) root is
+				// refused by the dispatcher before the request is looked at: that reply carries no id
 				answered = true
 			}
 			if f.Ctrl != nil && f.Ctrl.Code == 205 && s.Op.K == "leave" {
@@ -354,7 +374,20 @@ func (o *c14Obs) consistency(w *wWorld, when string) *kit.Viol {
 			fmt.Printf("  C14 topic %s loaded=%v status=%#x sessions=%d gone=%v users=%d\n", name, lt.Loaded, lt.Status, len(lt.Sessions), gone, len(snap.Users))
 		}
 		if len(gone) > 0 && len(lt.Sessions) > 0 {
-			return kit.V("topic-of-deleted-account-served", "P2P topic %s is loaded with %d sessions attached although the account of user %v was deleted, after %s", name, len(lt.Sessions), gone, when)
+			if o.servedKnown[name] {
+				continue // reported (as a listed finding) when it arose
+			}
+			sig := "topic-of-deleted-account-served"
+			if o.racingSub[name] {
+				// the account deletion crossed with a {sub} which was loading the topic at that moment
+				sig += ":raced-with-subscribe"
+			}
+			v := kit.V(sig, "P2P topic %s is loaded with %d sessions attached although the account of user %v was deleted, after %s", name, len(lt.Sessions), gone, when)
+			if o.known != nil && o.known(v) {
+				o.servedKnown[name] = true
+				continue
+			}
+			return v
 		}
 	}
 	// online counters
@@ -395,7 +428,8 @@ func (o *c14Obs) consistency(w *wWorld, when string) *kit.Viol {
 func c14Exec(t *testing.T, r *kit.Run) func(wProg) kit.Outcome {
 	return func(p wProg) kit.Outcome {
 		r.WAL(p)
-		obs := &c14Obs{deleted: map[string]bool{}}
+		obs := &c14Obs{deleted: map[string]bool{}, racingSub: map[string]bool{}, servedKnown: map[string]bool{}}
+		obs.known = func(v *kit.Viol) bool { return r.IsKnown(v.Sig) && r.Violation(v, p) }
 		var res wRunResult
 		fail := wInBubble(t, func() { res = wExec(&p, obs, nil) })
 		o := kit.Outcome{NonTrivial: obs.racy >= 1}
